@@ -1,14 +1,647 @@
-//! Suite `cli` (stub: replaced by the owner of the suite).
+//! Suite `cli`: the built `varlink` binary (`varlink [--color X] [-R RESOLVER] call [--more] URL [ARGS]`)
+//! against a scripted service thread of the harness (C20).
+//!
+//! Case:
+//!   (cli <form> x<listen> x<url> <args> <more t|f> <color> (frames <frame>*))
+//!     form   = path | abstract | tcp | resolver | nolisten
+//!     listen = address template the scripted service listens on; placeholders @DIR@ (fresh temporary
+//!              directory), @ABS@ (unique abstract-socket prefix), @PORT@ (free TCP port)
+//!     url    = the [ADDRESS/]INTERFACE.METHOD argument, same placeholders
+//!     args   = - | (args x<text> <json | bad>)      ARGUMENTS as typed, and what serde_json makes of it
+//!     color  = on | off | auto
+//!     frame  = as in suite `client` ((f b<bytes> <dec>) | (part b<bytes> <dec>)); sent in answer to the
+//!              first request of the connection, then the service shuts down its sending side
+//!
+//! Observation:
+//!   (cli-obs (conns n) (resolver -|x<interface>) (log <req>*) (stdout <json>*) <clean t|f> <exit> <report>)
+//!     report = - | (std x<short> x<param>) | (named x<name> <json|->) | failed | (msg <class>)
+use crate::rng::Rng;
+use crate::suites::client::{frame_sx, part_sx, req_sx};
 use crate::sx::{self, Sx};
 use crate::{Case, Ctx, Suite};
+use serde_json::{json, Value};
+use std::io::{BufRead, BufReader, Read, Write};
+use std::net::{Shutdown, TcpListener};
+use std::os::unix::net::UnixListener;
+use std::process::{Command, Stdio};
+use std::sync::atomic::{AtomicBool, AtomicUsize, Ordering};
+use std::sync::{Arc, Mutex};
+use std::time::{Duration, Instant};
 
 pub struct CliSuite;
 
-impl Suite for CliSuite {
-    fn generate(&self, _ctx: &Ctx) -> Vec<Case> {
-        Vec::new()
+static COUNTER: AtomicUsize = AtomicUsize::new(0);
+
+enum Listener {
+    Unix(UnixListener),
+    Tcp(TcpListener),
+}
+
+trait Conn: Read + Write {
+    fn shut_wr(&self);
+    fn set_timeout(&self);
+    fn dup(&self) -> Box<dyn Conn + Send>;
+}
+impl Conn for std::os::unix::net::UnixStream {
+    fn shut_wr(&self) {
+        let _ = self.shutdown(Shutdown::Write);
     }
-    fn run(&self, _ctx: &Ctx, _input: &Sx) -> Sx {
-        sx::atom("stub")
+    fn set_timeout(&self) {
+        let _ = self.set_read_timeout(Some(Duration::from_secs(5)));
+        let _ = self.set_nonblocking(false);
+    }
+    fn dup(&self) -> Box<dyn Conn + Send> {
+        Box::new(self.try_clone().unwrap())
+    }
+}
+impl Conn for std::net::TcpStream {
+    fn shut_wr(&self) {
+        let _ = self.shutdown(Shutdown::Write);
+    }
+    fn set_timeout(&self) {
+        let _ = self.set_read_timeout(Some(Duration::from_secs(5)));
+        let _ = self.set_nonblocking(false);
+    }
+    fn dup(&self) -> Box<dyn Conn + Send> {
+        Box::new(self.try_clone().unwrap())
+    }
+}
+
+impl Listener {
+    fn accept(&self) -> Option<Box<dyn Conn + Send>> {
+        match self {
+            Listener::Unix(l) => l.accept().ok().map(|(s, _)| Box::new(s) as Box<dyn Conn + Send>),
+            Listener::Tcp(l) => l.accept().ok().map(|(s, _)| Box::new(s) as Box<dyn Conn + Send>),
+        }
+    }
+}
+
+fn bind(addr: &str) -> Option<Listener> {
+    if let Some(rest) = addr.strip_prefix("tcp:") {
+        let l = TcpListener::bind(rest).ok()?;
+        l.set_nonblocking(true).ok()?;
+        Some(Listener::Tcp(l))
+    } else if let Some(name) = addr.strip_prefix("unix:@") {
+        use std::os::linux::net::SocketAddrExt;
+        let a = std::os::unix::net::SocketAddr::from_abstract_name(name.as_bytes()).ok()?;
+        let l = UnixListener::bind_addr(&a).ok()?;
+        l.set_nonblocking(true).ok()?;
+        Some(Listener::Unix(l))
+    } else if let Some(path) = addr.strip_prefix("unix:") {
+        if let Some(parent) = std::path::Path::new(path).parent() {
+            let _ = std::fs::create_dir_all(parent);
+        }
+        let l = UnixListener::bind(path).ok()?;
+        l.set_nonblocking(true).ok()?;
+        Some(Listener::Unix(l))
+    } else {
+        None
+    }
+}
+
+struct Served {
+    conns: usize,
+    log: Vec<Vec<u8>>,
+}
+
+/// accept connections until told to stop; answer the first request of each with `reply`
+fn serve(l: Listener, reply: Vec<u8>, stop: Arc<AtomicBool>) -> std::thread::JoinHandle<Served> {
+    std::thread::spawn(move || {
+        let mut out = Served { conns: 0, log: Vec::new() };
+        loop {
+            match l.accept() {
+                Some(c) => {
+                    out.conns += 1;
+                    c.set_timeout();
+                    let mut w = c.dup();
+                    let mut rd = BufReader::new(c);
+                    let mut first = true;
+                    loop {
+                        let mut buf = Vec::new();
+                        match rd.read_until(0, &mut buf) {
+                            Ok(0) | Err(_) => break,
+                            Ok(_) => {
+                                if buf.last() == Some(&0) {
+                                    buf.pop();
+                                }
+                                out.log.push(buf);
+                                if first {
+                                    first = false;
+                                    let _ = w.write_all(&reply);
+                                    let _ = w.flush();
+                                    w.shut_wr();
+                                }
+                            }
+                        }
+                    }
+                }
+                None => {
+                    if stop.load(Ordering::SeqCst) {
+                        break;
+                    }
+                    std::thread::sleep(Duration::from_millis(2));
+                }
+            }
+        }
+        out
+    })
+}
+
+fn strip_ansi(s: &str) -> String {
+    let mut out = String::new();
+    let mut it = s.chars().peekable();
+    while let Some(c) = it.next() {
+        if c == '\u{1b}' && it.peek() == Some(&'[') {
+            it.next();
+            for d in it.by_ref() {
+                if ('@'..='~').contains(&d) {
+                    break;
+                }
+            }
+        } else {
+            out.push(c);
+        }
+    }
+    out
+}
+
+fn classify_stderr(raw: &str) -> Sx {
+    let s = strip_ansi(raw);
+    let s = s.strip_suffix('\n').unwrap_or(&s);
+    if s.is_empty() {
+        return sx::atom("-");
+    }
+    let body = match s.strip_prefix("Error: ") {
+        Some(b) => b,
+        None => return sx::tagged("msg", vec![sx::atom("no-error-prefix")]),
+    };
+    if let Some(rest) = body.strip_prefix("Call failed with error: ") {
+        for short in ["InterfaceNotFound", "MethodNotFound", "MethodNotImplemented", "InvalidParameter"] {
+            if let Some(p) = rest.strip_prefix(short).and_then(|r| r.strip_prefix(": ")) {
+                return sx::tagged("std", vec![sx::xs(short), sx::xs(p)]);
+            }
+        }
+        return match rest.split_once('\n') {
+            None => sx::tagged("named", vec![sx::xs(rest), sx::atom("-")]),
+            Some((name, js)) => match serde_json::from_str::<Value>(js) {
+                Ok(v) => sx::tagged("named", vec![sx::xs(name), sx::json(&v)]),
+                Err(_) => sx::tagged("msg", vec![sx::atom("unparsable-error-parameters")]),
+            },
+        };
+    }
+    let class = if body.starts_with("Failed to call method") {
+        return sx::atom("failed");
+    } else if body.starts_with("Invalid address") {
+        "invalid-address"
+    } else if body.starts_with("Failed to connect with resolver") {
+        "connect-resolver"
+    } else if body.starts_with("Failed to connect") {
+        "connect"
+    } else if body.starts_with("Failed to parse JSON") {
+        "parse-args"
+    } else if body.starts_with("Interface '") {
+        "resolver-not-found"
+    } else {
+        "other"
+    };
+    sx::tagged("msg", vec![sx::atom(class)])
+}
+
+fn varlink_bin() -> std::path::PathBuf {
+    let exe = std::env::current_exe().expect("current_exe");
+    exe.parent().unwrap().join("varlink")
+}
+
+fn frames_bytes(frames: &Sx) -> Vec<u8> {
+    let mut bytes = Vec::new();
+    for f in &frames.as_list().unwrap()[1..] {
+        let fl = f.as_list().unwrap();
+        match fl[0].as_atom().unwrap() {
+            "f" => {
+                bytes.extend_from_slice(&fl[1].as_bytes().unwrap());
+                bytes.push(0);
+            }
+            "part" => bytes.extend_from_slice(&fl[1].as_bytes().unwrap()),
+            other => panic!("frame kind {}", other),
+        }
+    }
+    bytes
+}
+
+fn free_port() -> u16 {
+    let l = TcpListener::bind("127.0.0.1:0").unwrap();
+    l.local_addr().unwrap().port()
+}
+
+fn run_cli(input: &Sx) -> Sx {
+    let l = input.as_list().unwrap();
+    let form = l[1].as_atom().unwrap().to_string();
+    let listen_t = l[2].as_str().unwrap();
+    let url_t = l[3].as_str().unwrap();
+    let args: Option<String> = match &l[4] {
+        Sx::Atom(_) => None,
+        Sx::List(a) => Some(a[1].as_str().unwrap()),
+    };
+    let more = l[5].as_atom() == Some("t");
+    let color = l[6].as_atom().unwrap().to_string();
+    let reply = frames_bytes(&l[7]);
+
+    let n = COUNTER.fetch_add(1, Ordering::SeqCst);
+    let dir = std::env::temp_dir().join(format!("vvcli-{}-{}", std::process::id(), n));
+    let _ = std::fs::create_dir_all(&dir);
+    let abs = format!("vvcli-{}-{}", std::process::id(), n);
+    let port = if listen_t.contains("@PORT@") || url_t.contains("@PORT@") { free_port() } else { 0 };
+    let subst = |s: &str| s.replace("@DIR@", dir.to_str().unwrap()).replace("@ABS@", &abs).replace("@PORT@", &port.to_string());
+    let listen = subst(&listen_t);
+    let url = subst(&url_t);
+
+    let stop = Arc::new(AtomicBool::new(false));
+    let main_srv = if form == "nolisten" { None } else { bind(&listen).map(|l| serve(l, reply, stop.clone())) };
+    // the resolver stub answers Resolve with the address of the scripted service
+    let resolver_addr = format!("unix:{}/resolver", dir.to_str().unwrap());
+    let resolver_seen: Arc<Mutex<Vec<Vec<u8>>>> = Arc::new(Mutex::new(Vec::new()));
+    let res_srv = if form == "resolver" {
+        let mut rb = serde_json::to_vec(&json!({"parameters": {"address": listen}})).unwrap();
+        rb.push(0);
+        bind(&resolver_addr).map(|l| serve(l, rb, stop.clone()))
+    } else {
+        None
+    };
+
+    let mut cmd = Command::new(varlink_bin());
+    cmd.arg("--color").arg(&color);
+    if form == "resolver" {
+        cmd.arg("-R").arg(&resolver_addr);
+    }
+    cmd.arg("call");
+    if more {
+        cmd.arg("--more");
+    }
+    cmd.arg(&url);
+    if let Some(a) = &args {
+        cmd.arg(a);
+    }
+    cmd.stdin(Stdio::null()).stdout(Stdio::piped()).stderr(Stdio::piped());
+    cmd.env_remove("VARLINK_ADDRESS");
+    let mut child = cmd.spawn().expect("spawn varlink");
+    let mut so = child.stdout.take().unwrap();
+    let mut se = child.stderr.take().unwrap();
+    let t_out = std::thread::spawn(move || {
+        let mut v = Vec::new();
+        let _ = so.read_to_end(&mut v);
+        v
+    });
+    let t_err = std::thread::spawn(move || {
+        let mut v = Vec::new();
+        let _ = se.read_to_end(&mut v);
+        v
+    });
+    let deadline = Instant::now() + Duration::from_secs(8);
+    let mut hung = false;
+    let status = loop {
+        match child.try_wait() {
+            Ok(Some(st)) => break Some(st),
+            Ok(None) => {
+                if Instant::now() > deadline {
+                    let _ = child.kill();
+                    let _ = child.wait();
+                    hung = true;
+                    break None;
+                }
+                std::thread::sleep(Duration::from_millis(1));
+            }
+            Err(_) => break None,
+        }
+    };
+    let stdout = t_out.join().unwrap_or_default();
+    let stderr = t_err.join().unwrap_or_default();
+    stop.store(true, Ordering::SeqCst);
+    let served = main_srv.map(|h| h.join().unwrap()).unwrap_or(Served { conns: 0, log: Vec::new() });
+    if let Some(h) = res_srv {
+        let s = h.join().unwrap();
+        *resolver_seen.lock().unwrap() = s.log;
+    }
+    let _ = std::fs::remove_dir_all(&dir);
+
+    // stdout: a sequence of JSON documents
+    let text = strip_ansi(&String::from_utf8_lossy(&stdout));
+    let mut docs = vec![sx::atom("stdout")];
+    let mut clean = true;
+    let mut stream = serde_json::Deserializer::from_str(&text).into_iter::<Value>();
+    loop {
+        match stream.next() {
+            Some(Ok(v)) => docs.push(sx::json(&v)),
+            Some(Err(_)) => {
+                clean = false;
+                break;
+            }
+            None => break,
+        }
+    }
+    let resolver = match resolver_seen.lock().unwrap().first() {
+        None => sx::atom("-"),
+        Some(f) => {
+            let v: Value = serde_json::from_slice(f).unwrap_or(Value::Null);
+            let ok = v.get("method").and_then(|m| m.as_str()) == Some("org.varlink.resolver.Resolve");
+            match v.get("parameters").and_then(|p| p.get("interface")).and_then(|i| i.as_str()) {
+                Some(i) if ok => sx::xs(i),
+                _ => sx::xs("?"),
+            }
+        }
+    };
+    let mut logsx = vec![sx::atom("log")];
+    logsx.extend(served.log.iter().map(|f| req_sx(f)));
+    let exit = match status.and_then(|s| s.code()) {
+        Some(c) => sx::int(c as i64),
+        None => sx::atom(if hung { "hung" } else { "signal" }),
+    };
+    sx::tagged(
+        "cli-obs",
+        vec![
+            sx::tagged("conns", vec![sx::nat(served.conns)]),
+            sx::tagged("resolver", vec![resolver]),
+            sx::list(logsx),
+            sx::list(docs),
+            sx::boolean(clean),
+            exit,
+            classify_stderr(&String::from_utf8_lossy(&stderr)),
+        ],
+    )
+}
+
+// ---------------------------------------------------------------------------
+// generators
+
+fn gen_string(rng: &mut Rng) -> String {
+    match rng.below(9) {
+        0 => String::new(),
+        1 => "plain".into(),
+        2 => "q\"uo\\te/slash".into(),
+        3 => "line\nfeed\ttab\r\u{8}\u{c}".into(),
+        4 => "\u{0}\u{1}\u{1b}[31mred\u{7f}".into(),
+        5 => "ünï©ödé → 漢字 😀 \u{10ffff}".into(),
+        6 => "\u{2028}\u{2029}\u{feff}".into(),
+        7 => "{\"looks\":\"like json\"}".into(),
+        _ => "x".repeat(rng.range(1, 300)),
+    }
+}
+
+fn gen_number(rng: &mut Rng) -> Value {
+    match rng.below(12) {
+        0 => json!(0),
+        1 => json!(-1),
+        2 => json!(i64::MAX),
+        3 => json!(i64::MIN),
+        4 => json!(u64::MAX),
+        5 => json!(9007199254740993u64),
+        6 => json!(0.1),
+        7 => json!(-0.0),
+        8 => json!(1e300),
+        9 => json!(5e-324),
+        10 => json!(123456789.125),
+        _ => json!(rng.below(1000) as i64 - 500),
+    }
+}
+
+pub fn gen_value(rng: &mut Rng, depth: usize) -> Value {
+    let top = if depth == 0 { 6 } else { 9 };
+    match rng.below(top) {
+        0 => Value::Null,
+        1 => json!(rng.chance(1, 2)),
+        2 => gen_number(rng),
+        3 | 4 => json!(gen_string(rng)),
+        5 => {
+            if rng.chance(1, 2) {
+                json!({})
+            } else {
+                json!([])
+            }
+        }
+        6 => Value::Array((0..rng.below(4)).map(|_| gen_value(rng, depth - 1)).collect()),
+        _ => {
+            let mut m = serde_json::Map::new();
+            for _ in 0..rng.below(4) {
+                let k = if rng.chance(1, 4) { gen_string(rng) } else { format!("k{}", rng.below(5)) };
+                m.insert(k, gen_value(rng, depth - 1));
+            }
+            Value::Object(m)
+        }
+    }
+}
+
+fn gen_params(rng: &mut Rng) -> Option<Value> {
+    match rng.below(10) {
+        0 => None,
+        1 => Some(json!({})),
+        2 => Some(Value::Null),
+        3 => Some(gen_value(rng, 3)),
+        _ => {
+            let mut m = serde_json::Map::new();
+            for i in 0..rng.range(1, 4) {
+                m.insert(format!("f{}", i), gen_value(rng, 3));
+            }
+            Some(Value::Object(m))
+        }
+    }
+}
+
+fn reply_bytes(rng: &mut Rng, cont: Option<bool>, error: Option<String>, params: Option<Value>) -> Vec<u8> {
+    let mut o = serde_json::Map::new();
+    if let Some(c) = cont {
+        o.insert("continues".into(), json!(c));
+    }
+    if let Some(e) = error {
+        o.insert("error".into(), json!(e));
+    }
+    if let Some(p) = params {
+        o.insert("parameters".into(), p);
+    }
+    let v = Value::Object(o);
+    if rng.chance(1, 8) {
+        serde_json::to_vec_pretty(&v).unwrap()
+    } else {
+        serde_json::to_vec(&v).unwrap()
+    }
+}
+
+const STD: [&str; 4] = [
+    "org.varlink.service.InterfaceNotFound",
+    "org.varlink.service.InvalidParameter",
+    "org.varlink.service.MethodNotFound",
+    "org.varlink.service.MethodNotImplemented",
+];
+
+fn gen_error(rng: &mut Rng) -> (String, Option<Value>) {
+    match rng.below(8) {
+        // (a raw ESC in the parameter would be indistinguishable from the tool's own colouring on stderr)
+        0 => (STD[0].into(), Some(json!({"interface": gen_string(rng).replace('\u{1b}', "ESC")}))),
+        1 => (STD[1].into(), Some(json!({"parameter": "p"}))),
+        2 => (STD[2].into(), Some(json!({"method": "org.example.cli.Nope"}))),
+        3 => (STD[3].into(), if rng.chance(1, 2) { None } else { Some(json!({"method": 5})) }),
+        4 => ("org.example.cli.Custom".into(), None),
+        5 => ("org.example.cli.Custom".into(), gen_params(rng)),
+        6 => ("org.example.cli.Ünï".into(), Some(json!({"why": gen_string(rng)}))),
+        _ => (STD[rng.below(4)].into(), crate::suites::client::gen_error_params(rng)),
+    }
+}
+
+fn gen_frames(rng: &mut Rng, more: bool, tags: &mut Vec<String>) -> Sx {
+    let mut frames = vec![sx::atom("frames")];
+    let k = if more || rng.chance(1, 10) { *rng.pick(&[0usize, 0, 1, 2, 3, 5]) } else { 0 };
+    if !more && k > 0 {
+        tags.push("stream:continues-to-plain-call".into());
+    }
+    if more {
+        tags.push(format!("stream:k={}", k));
+    }
+    let err_at = if rng.chance(1, 8) && k > 0 { Some(rng.below(k)) } else { None };
+    for i in 0..k {
+        if err_at == Some(i) {
+            let (n, p) = gen_error(rng);
+            let b = reply_bytes(rng, Some(true), Some(n), p);
+            frames.push(frame_sx(&b));
+            tags.push("stream:error-in-the-middle".into());
+        } else {
+            let p = gen_params(rng);
+            let b = reply_bytes(rng, Some(true), None, p);
+            frames.push(frame_sx(&b));
+        }
+    }
+    match rng.below(20) {
+        0 => {
+            tags.push("final:eof-instead".into());
+        }
+        1 => {
+            frames.push(frame_sx(b"{\"parameters\":"));
+            tags.push("final:garbage".into());
+        }
+        2 => {
+            let p = gen_params(rng);
+            let mut b = reply_bytes(rng, None, None, p);
+            if rng.chance(1, 2) {
+                b.truncate(b.len() / 2);
+            }
+            frames.push(part_sx(&b));
+            tags.push("final:partial-then-eof".into());
+        }
+        3..=7 => {
+            let (n, p) = gen_error(rng);
+            let c = if rng.chance(1, 4) { Some(false) } else { None };
+            let b = reply_bytes(rng, c, Some(n), p);
+            frames.push(frame_sx(&b));
+            tags.push("final:error".into());
+        }
+        _ => {
+            let p = gen_params(rng);
+            let c = if rng.chance(1, 4) { Some(false) } else { None };
+            let b = reply_bytes(rng, c, None, p);
+            frames.push(frame_sx(&b));
+            tags.push("final:result".into());
+            if rng.chance(1, 15) {
+                let p = gen_params(rng);
+                let b = reply_bytes(rng, None, None, p);
+                frames.push(frame_sx(&b));
+                tags.push("final:extra-reply-after".into());
+            }
+        }
+    }
+    sx::list(frames)
+}
+
+fn gen_case(rng: &mut Rng) -> Case {
+    let mut tags = Vec::new();
+    let method = match rng.below(6) {
+        0 => "org.example.cli.Ping".to_string(),
+        1 => "a.B".to_string(),
+        2 => "org.example.cli.sub-x.Method".to_string(),
+        3 => "x.y.z.W".to_string(),
+        _ => format!("org.example.cli.M{}", rng.below(100)),
+    };
+    let (form, listen, url) = match rng.below(20) {
+        0..=5 => {
+            let sub = *rng.pick(&["", "/a", "/a/b.c/d", "/with.dots/and spaces", "/ü/é"]);
+            let l = format!("unix:@DIR@{}/sock", sub);
+            ("path", l.clone(), format!("{}/{}", l, method))
+        }
+        6..=8 => {
+            let l = "unix:@DIR@/s;mode=0600".to_string();
+            ("path", "unix:@DIR@/s".to_string(), format!("{}/{}", l, method))
+        }
+        9..=11 => {
+            let sub = *rng.pick(&["", "/x", "/x/y.z", ".dots"]);
+            let l = format!("unix:@@ABS@{}", sub);
+            ("abstract", l.clone(), format!("{}/{}", l, method))
+        }
+        12..=14 => {
+            let l = "tcp:127.0.0.1:@PORT@".to_string();
+            ("tcp", l.clone(), format!("{}/{}", l, method))
+        }
+        15..=16 => ("resolver", "unix:@DIR@/behind/resolver".to_string(), method.clone()),
+        17 => {
+            // method part without a dot: rejected before anything is contacted
+            let l = "unix:@DIR@/sock".to_string();
+            ("path", l.clone(), format!("{}/{}", l, "NoDotMethod"))
+        }
+        18 => ("nolisten", "unix:@DIR@/nobody".to_string(), "nodotnoslash".to_string()),
+        _ => {
+            // nobody listens there
+            ("nolisten", "unix:@DIR@/nobody".to_string(), format!("unix:@DIR@/nobody/{}", method))
+        }
+    };
+    tags.push(format!("addr:{}", form));
+    let args = match rng.below(6) {
+        0 => sx::atom("-"),
+        1 => {
+            tags.push("args:invalid-json".into());
+            sx::tagged("args", vec![sx::xs("{not json"), sx::atom("bad")])
+        }
+        _ => {
+            let v = if rng.chance(1, 3) { gen_value(rng, 2) } else { json!({"n": rng.below(10), "s": gen_string(rng)}) };
+            // clap takes a leading '-' for an option: negative numbers go into an array
+            let v = if serde_json::to_string(&v).unwrap().starts_with('-') { json!([v]) } else { v };
+            let text = if rng.chance(1, 4) { serde_json::to_string_pretty(&v).unwrap() } else { serde_json::to_string(&v).unwrap() };
+            // what the tool will make of the text
+            let dec: Value = serde_json::from_str(&text).unwrap();
+            sx::tagged("args", vec![sx::xs(&text), sx::json(&dec)])
+        }
+    };
+    let more = rng.chance(1, 2);
+    let color = *rng.pick(&["on", "off", "on", "off", "auto"]);
+    tags.push(format!("color:{}", color));
+    tags.push(format!("more:{}", more));
+    let frames = gen_frames(rng, more, &mut tags);
+    tags.sort();
+    tags.dedup();
+    Case {
+        input: sx::tagged(
+            "cli",
+            vec![sx::atom(form), sx::xs(&listen), sx::xs(&url), args, sx::boolean(more), sx::atom(color), frames],
+        ),
+        tags,
+    }
+}
+
+impl Suite for CliSuite {
+    fn generate(&self, ctx: &Ctx) -> Vec<Case> {
+        let mut rng = Rng::new(ctx.seed ^ 0xC20);
+        let mut cases = Vec::new();
+        if let Ok(txt) = std::fs::read_to_string(concat!(env!("CARGO_MANIFEST_DIR"), "/corpus/cli.txt")) {
+            for l in txt.lines() {
+                if l.trim_start().starts_with('(') {
+                    if let Some(s) = sx::parse(l) {
+                        cases.push(Case { input: s, tags: vec!["corpus".into()] });
+                    }
+                }
+            }
+        }
+        let n = if ctx.thorough { 6000 } else { 700 };
+        for _ in 0..n {
+            cases.push(gen_case(&mut rng));
+        }
+        cases
+    }
+
+    fn run(&self, _ctx: &Ctx, input: &Sx) -> Sx {
+        run_cli(input)
     }
 }
